@@ -468,6 +468,8 @@ func runC16Stateful(c *Cfg) {
 
 func runC16(c *Cfg) {
 	r := c.Rep
+	runSpecial(c, "C16", "bind-cyclic-values")
+	runSpecial(c, "C16", "bind-store-aware-hooks")
 	runC16Stateful(c)
 	vals := append(bindValues(), zoo.Fixed()...)
 	dests := bindDests()
